@@ -100,7 +100,7 @@ func main() {
 		"Scheduler.Solve placements vs admissibility oracle (1/4/16 workers agree)"}
 	nUnit, nNC, nEX, nWorlds := 150, 120, 80, 100
 	if c.Thorough() {
-		nUnit, nNC, nEX, nWorlds = 1000, 1000, 500, 700
+		nUnit, nNC, nEX, nWorlds = 600, 600, 300, 400
 	}
 	t0 := time.Now()
 	r := c.Rand
